@@ -31,7 +31,7 @@ def run_attr_property(ck, pid, pfile, deps, oracle, nquick, nthorough, cross_onl
                 irbad.append("%s (%s)" % (what, nm))
             if made <= 8:
                 coq_samples.extend(attrs.coq_attr_samples(res, ir, ck.rng))
-        for tag, what in oracle(res, an, info, ck.rng):
+        for tag, what in list(oracle(res, an, info, ck.rng)) + attrs.plan_order_check(res, info):
             inp = info_brief(info); inp["seed_state"] = None
             inp["x"] = [float(v) for v in info["x"]]; inp["y"] = [float(v) for v in info["y"]]
             ck.violation(what, inp, tag=tag)
@@ -67,9 +67,9 @@ def replay_attr(rec, oracle):
     from speckit.analysis import SpectrumAnalyzer
     x, y = np.array(inp["x"]), np.array(inp["y"])
     data = np.vstack([x, y]) if inp["cross"] else x
-    an = SpectrumAnalyzer(data, inp["fs"], **inp["kw"])
+    an = SpectrumAnalyzer(data, inp["fs"], **attrs.resolve_kw(inp["kw"]))
     res = an.compute()
     info = dict(inp); info["x"], info["y"] = x, y
-    fails = oracle(res, an, info, random.Random(0))
+    fails = list(oracle(res, an, info, random.Random(0))) + attrs.plan_order_check(res, info)
     print("replay:", fails or "property holds now")
     return 1 if fails else 0
